@@ -1,16 +1,22 @@
 #!/bin/sh
-# bin/seedingest.sh C02  -> copies /tmp/wt/C02-out/{a,b} to seeded/C02a, seeded/C02b, confirms and checks them
+# bin/seedingest.sh C02        -> copies /tmp/wt/C02-out/{a,b} to seeded/C02a, seeded/C02b, confirms and checks them
+# bin/seedingest.sh C02 r2     -> copies /tmp/wt/C02r2-out/{a,b} to seeded/C02c, seeded/C02d (second round)
 ID=$1
+R=$2
 for k in a b c; do
-  src=/tmp/wt/$ID-out/$k
+  src=/tmp/wt/$ID$R-out/$k
   [ -f $src/patch.diff ] || continue
-  dst=/verif/seeded/$ID$k
+  t=$k
+  if [ "$R" = "r2" ]; then t=$(echo $k | tr abc cde); fi
+  if [ "$R" = "r3" ]; then t=$(echo $k | tr abc fgh); fi
+  dst=/verif/seeded/$ID$t
   mkdir -p $dst
   cp -r $src/. $dst/
-  echo "== $ID$k confirm"
+  echo "== $ID$t confirm"
   /verif/bin/seedrun.py confirm $dst > $dst/confirm.json
   python3 -c "import json;c=json.load(open('$dst/confirm.json'));print({k:v for k,v in c.items() if not k.endswith('tail')})"
-  echo "== $ID$k check"
+  echo "== $ID$t check"
   /verif/bin/seedrun.py check $dst quick > $dst/check_quick.json
   python3 -c "import json;c=json.load(open('$dst/check_quick.json'));[print(p,v['killed'],v['rc'],v['wall_s'],v['first'][:300]) for p,v in c.items()]"
+  cp $dst/check_quick.json $dst/check_quick_first.json
 done
